@@ -268,9 +268,18 @@ func (vc *VC) call(fr *Frame, st *State, ins ssa.Instruction, cc *ssa.CallCommon
 		// contracts restricted to an argument type are tried before the unrestricted ones
 		exts := append([]*Contract{}, vc.P.Externs[full]...)
 		sort.SliceStable(exts, func(i, j int) bool {
-			return exts[i].Options["argtype"] != "" && exts[j].Options["argtype"] == ""
+			ri := exts[i].Options["argtype"] != "" || exts[i].Options["in"] != ""
+			rj := exts[j].Options["argtype"] != "" || exts[j].Options["in"] != ""
+			return ri && !rj
 		})
 		for _, ec := range exts {
+			if in := ec.Options["in"]; in != "" {
+				// in=PKG restricts the contract to calls made from functions of the package whose path ends in PKG
+				// (an untyped library container used with one key type by one package)
+				if !strings.HasSuffix(fnPkgPath(fr.fn), in) {
+					continue
+				}
+			}
 			if at := ec.Options["argtype"]; at != "" {
 				// argtype=IDX:TYPE restricts the contract to calls whose IDX-th argument has this static type
 				parts := strings.SplitN(at, ":", 2)
